@@ -7,5 +7,5 @@ TMP=$(mktemp -d /tmp/pm-XXXX); trap 'rm -rf "$TMP"' EXIT
 cp -r /repo "$TMP/repo"; rm -rf "$TMP/repo/.git"; mkdir -p "$TMP/verif"; cp "$HERE/known_findings.json" "$TMP/verif/"
 cd "$TMP/repo"; patch -p1 -s < "$PATCH" || { echo "patch does not apply"; exit 2; }
 for id in "$@"; do
-  "$HERE/bin/authcheck" "$id" -repo "$TMP/repo" -verif "$TMP/verif" 2>&1 | grep -E "violated|unresolved|panic|normal form|NF unlisted|NF skip" | cut -c1-400 | sed "s/^/[$id]/"
+  "${AUTHCHECK:-$HERE/bin/authcheck}" "$id" -repo "$TMP/repo" -verif "$TMP/verif" 2>&1 | grep -E "violated|unresolved|panic|normal form|NF unlisted|NF skip" | cut -c1-400 | sed "s/^/[$id]/"
 done
